@@ -3254,3 +3254,51 @@ mut("c15-quiet-trigger-written-out-per-arm", ["C15"], [(PB, '''		case <-reBroadc
 			log.Tracef("Rebroadcast interval elapsed")
 			triggerRebroadcast()
 ''')], [])
+
+# ---- batch 17 ----
+mut("c02-prev-checkpoint-scan-skips-first", ["C01", "C02"], [(BM, '''	checkpoints := b.cfg.ChainParams.Checkpoints
+	for i := 0; i < len(checkpoints); i++ {
+		if height <= checkpoints[i].Height {
+			break
+		}
+		prevCheckpoint = &checkpoints[i]
+	}
+''', '''	checkpoints := b.cfg.ChainParams.Checkpoints
+	for i := len(checkpoints) - 1; i > 0; i-- {
+		if height > checkpoints[i].Height {
+			return &checkpoints[i]
+		}
+	}
+''')], ["C01.G8", "C02.G6"])
+mut("c02-quiet-prev-checkpoint-scan-downwards", ["C01", "C02"], [(BM, '''	checkpoints := b.cfg.ChainParams.Checkpoints
+	for i := 0; i < len(checkpoints); i++ {
+		if height <= checkpoints[i].Height {
+			break
+		}
+		prevCheckpoint = &checkpoints[i]
+	}
+''', '''	checkpoints := b.cfg.ChainParams.Checkpoints
+	for i := len(checkpoints) - 1; i >= 0; i-- {
+		if height > checkpoints[i].Height {
+			return &checkpoints[i]
+		}
+	}
+''')], [])
+mut("c04-inv-locator-backup-only-when-different", ["C04"], [(BM, '''			knownLocator, err := b.cfg.BlockHeaders.LatestBlockLocator()
+			if err == nil {
+				locator = append(locator, knownLocator...)
+			}
+''', '''			knownLocator, err := b.cfg.BlockHeaders.LatestBlockLocator()
+			if err == nil && len(knownLocator) > 0 && *knownLocator[0] != lastHash {
+				locator = append(locator, knownLocator...)
+			}
+''')], ["C04.O3"])
+HF = "headerfs/file.go"
+mut("c07-offset-product-in-32-bits", ["C07"], [(HF, '''	seekDistance := uint64(height) * 80
+''', '''	seekDistance := uint64(height * 80)
+''')], ["C07.V7"])
+mut("c07-quiet-offset-helper-64-bits", ["C07"], [(HF, '''	seekDistance := uint64(height) * 80
+''', '''	seekDistance := zzOffset(height, 80)
+'''), (HF, '''	seekDistance := uint64(height) * 32
+''', '''	seekDistance := zzOffset(height, 32)
+''')], [], new_files=[("headerfs/zz_offset.go", "package headerfs\n\nfunc zzOffset(height, size uint32) uint64 { return uint64(height) * uint64(size) }\n")])
